@@ -103,6 +103,10 @@ func docFile(d *document.Document, name string) []byte {
 		if d.Mf.CardSecurity != nil {
 			return d.Mf.CardSecurity.RawData
 		}
+	case "DIR":
+		if d.Mf.Dir != nil {
+			return d.Mf.Dir.RawData
+		}
 	case "SOD":
 		if l.Sod != nil {
 			return l.Sod.RawData
@@ -160,6 +164,8 @@ func chipFile(p *perso.Perso, name string) []byte {
 		return p.MF[chipsim.FidCardAccess]
 	case "CardSecurity":
 		return p.MF[chipsim.FidCardSecurity]
+	case "DIR":
+		return p.LDS[chipsim.FidDIR]
 	case "SOD":
 		return p.LDS[chipsim.FidSOD]
 	case "COM":
@@ -213,6 +219,7 @@ func randPlan(r *mrand.Rand, big bool) persoPlan {
 		}
 	}
 	o.Digest = issuer.AllHashes[r.IntN(5)]
+	o.EFDIR = r.IntN(5) == 0
 	o.SODBySKI = r.IntN(2) == 0
 	o.LDSv1 = r.IntN(2) == 0
 	o.Untrusted = r.IntN(4) == 0
